@@ -198,7 +198,8 @@ PROPS["C01"] = dict(level="proof",
           "sweep = block Gauss-Seidel for the partition / permutation of that sweep": "SemiAsyncValueIteration._update_values.post.natural_order_gauss_seidel (+ scan0.* carry invariant)",
           "|OV - V| < threshold on the convergence path (max_diff)": "SemiAsyncValueIteration.solve.post.stop_rule + _iteration_step.post.measure",
           "returned policy greedy for returned values": "SemiAsyncValueIteration.solve.post.policy_greedy"}},
-    bounded=[dict(name="c01_runtime", script="harness_solvers.py", args=["--prop", "c01"], wall_s=400)],
+    bounded=[dict(name="c01_runtime", script="harness_solvers.py", args=["--prop", "c01"], wall_s=400),
+             dict(name="c05_runtime", script="harness_solvers.py", args=["--prop", "c05"], wall_s=300)],      # policy-stability / evaluation clauses the PI bound rests on
     assumptions=SOLVER_ASSUME + ["MDP theory cited, not proved: the optimal value is the fixed point of the Bellman operator T, the exact value of a stationary policy d is the fixed point of T_d (Puterman Thm 6.2.5 / 6.1.1); the Lean theorems are stated for any fixed points",
         "the correspondence between a Lean hypothesis and the code obligation named in coverage.lean.links is established by reading: both are stated over the same spec functions Q, B, G, B_pi (the Lean side re-declares them)",
         "WF-prob (probabilities non-negative, summing to one) is a hypothesis on the problem, discharged for the shipped problems under C13"])
